@@ -263,3 +263,34 @@ def branch_rule_args(tier):
         out.append(dict(rules='short', branch=['PATH'] * n, num_flag=True))
     out.append(dict(rules='default', branch=None))
     return out
+
+
+GIT_STDOUT = [b'', b'main\n', b' v1.0.0 \n', b'caf\xe9\n', b'\xff\xfe', 'é\n'.encode(), b'1700000000\n']
+GIT_STDERR = [b'', b'fatal: not a git repository', b"fatal: ambiguous argument 'HEAD'", b'\xff bad object', b'Permission denied (publickey)', b'warning: shallow']
+
+
+def path_run_git(ctx, arg):
+    """the boundary function itself, `GitVcs::run_git_command`, executed from MIR against a stub of
+    std::process::Command: the child's exit status is a solver variable, its stdout / stderr bytes come from a menu that
+    includes invalid UTF-8 — whatever git prints, the function returns Ok or Err and never panics"""
+    import models_misc as MM
+    import interp as _interp
+    I, w = ctx.I, ctx.w
+    so, se = arg
+    succ = w.fresh_bool('git_exit_success')
+    saved = _interp.OVERRIDES.pop('GitVcs::run_git_command', None)
+    MM.PROCESS_OUTPUT[0] = dict(success=succ, stdout=list(GIT_STDOUT[so]), stderr=list(GIT_STDERR[se]))
+    try:
+        vcs = Adt('GitVcs', 0, [mkstring('/repo-under-test')])
+        r = I.call('GitVcs::run_git_command', [ValPtr(vcs), Slice([Str([ord(c) for c in 'status']), Str([ord(c) for c in '--porcelain'])])])
+        ctx.tag('returned_ok' if r.variant == 0 else 'returned_err')
+    except Panic as e:
+        m = w.get_model()
+        ctx.violation(clause='panic', site='run_git_command', stdout=list(GIT_STDOUT[so]), stderr=list(GIT_STDERR[se]), success=z3.is_true(m.eval(succ, model_completion=True)),
+                      detail=str(e), vkey='panic|run_git_command')
+    finally:
+        MM.PROCESS_OUTPUT[0] = None
+        if saved is not None:
+            _interp.OVERRIDES['GitVcs::run_git_command'] = saved
+    if w.stdout:
+        ctx.violation(clause='stdout_write', site='stdout_write', stage='run_git_command', text=''.join(chr(c) if isinstance(c, int) else '?' for c in w.stdout)[:120], detail='run_git_command printed to stdout', vkey='stdout|run_git')
